@@ -37,34 +37,34 @@ type writeRec struct {
 
 // Frame is one activation (top-level function or inlined call).
 type Frame struct {
-	g        *Gen
-	fn       *ssa.Function
-	vals     map[ssa.Value]Term
-	prefix   string
-	contract *FuncContract
-	parent   *Frame
-	pkg      string
-	entrySt  *State
-	loops    map[*ssa.BasicBlock]*loopInfo
-	loopList []*loopInfo
-	order    []*ssa.BasicBlock
-	outSt    map[*ssa.BasicBlock]*State
-	outReach map[*ssa.BasicBlock]string
-	edgeCond map[*ssa.BasicBlock][]string
-	rets     []retPoint
-	params   map[string]Binding
-	deferSites []*ssa.Defer
-	deferArgs  map[*ssa.Defer][]Term
-	deferFn    map[*ssa.Defer]Term
-	callOrd  map[string]int
-	curBlock *ssa.BasicBlock
+	g            *Gen
+	fn           *ssa.Function
+	vals         map[ssa.Value]Term
+	prefix       string
+	contract     *FuncContract
+	parent       *Frame
+	pkg          string
+	entrySt      *State
+	loops        map[*ssa.BasicBlock]*loopInfo
+	loopList     []*loopInfo
+	order        []*ssa.BasicBlock
+	outSt        map[*ssa.BasicBlock]*State
+	outReach     map[*ssa.BasicBlock]string
+	edgeCond     map[*ssa.BasicBlock][]string
+	rets         []retPoint
+	params       map[string]Binding
+	deferSites   []*ssa.Defer
+	deferArgs    map[*ssa.Defer][]Term
+	deferFn      map[*ssa.Defer]Term
+	callOrd      map[string]int
+	curBlock     *ssa.BasicBlock
 	curLoopStack []*loopInfo
-	ghosts   map[string]Binding // function-level ghost variables (current values)
-	tuples    map[ssa.Value][]Term
-	closureOf map[*ssa.MakeClosure]*closureVal
-	ranges    map[*ssa.Range]*rangeState
-	arrViews  map[*ssa.Slice]arrView
-	deferKey  map[*ssa.Defer]string
+	ghosts       map[string]Binding // function-level ghost variables (current values)
+	tuples       map[ssa.Value][]Term
+	closureOf    map[*ssa.MakeClosure]*closureVal
+	ranges       map[*ssa.Range]*rangeState
+	arrViews     map[*ssa.Slice]arrView
+	deferKey     map[*ssa.Defer]string
 }
 
 func (g *Gen) newFrame(fn *ssa.Function, parent *Frame, prefix string) *Frame {
@@ -369,6 +369,9 @@ func (fr *Frame) execBlock(b *ssa.BasicBlock, st0 *State, reach0 string) {
 			continue // unreachable predecessor (e.g. recover block)
 		}
 		c := and(fr.outReach[p], fr.edgeCondTo(p, b))
+		if c == "false" {
+			continue
+		}
 		fconds = append(fconds, c)
 		fsts = append(fsts, ps)
 		fpreds = append(fpreds, p)
@@ -376,6 +379,14 @@ func (fr *Frame) execBlock(b *ssa.BasicBlock, st0 *State, reach0 string) {
 	if b.Index == 0 {
 		st = st0.clone()
 		reach = reach0
+	} else if li != nil && len(fsts) == 0 {
+		fr.outSt[b] = st0.clone()
+		fr.outReach[b] = "false"
+		fr.edgeCond[b] = make([]string, len(b.Succs))
+		for i := range fr.edgeCond[b] {
+			fr.edgeCond[b][i] = "false"
+		}
+		return
 	} else {
 		if len(fsts) == 0 {
 			// unreachable block
